@@ -583,4 +583,1270 @@ theorem incorporate_spec (t nr nc : Nat) : ∀ (closer : List (Nat × Bool)) (ac
     · have := (length_insertOr (mkPeer t km.1 km.2) acc.1).2
       simp only [List.length_cons] at h6 ⊢; omega
 
+
+/-! ### the ledger invariant -/
+
+/-- The invariant of a query together with its ledger. -/
+structure LInv (s : Led) : Prop where
+  sorted : Sorted s.q.peers
+  distOk : DistOk s.q.target s.q.peers
+  wc : s.q.numWaiting = countW s.q.peers
+  em : ∀ k ∈ s.emitted, ∃ e ∈ s.q.peers, e.key = k ∧ e.state ≠ .notContacted
+  con : ∀ e ∈ s.q.peers, e.state ≠ .notContacted → e.key ∈ s.emitted
+  nd : s.emitted.Nodup
+  ans : ∀ e ∈ s.q.peers, e.state = .succeeded → e.key ∈ s.answered
+  rep : ∀ e ∈ s.q.peers, (e.key, e.pmatch) ∈ s.reported
+  fin : s.q.progress = .finished →
+    (∀ e ∈ s.q.peers, e.state ≠ .notContacted) ∨ s.q.cfg.numResults ≤ resCount s.q.variant s.q.peers
+  bnd : s.q.numWaiting ≤ max s.q.cfg.parallelism s.q.cfg.numResults
+
+theorem isFinished_false {p : Progress} (h : p.isFinished = false) : p ≠ .finished := by
+  intro hp; rw [hp] at h; simp [Progress.isFinished] at h
+
+theorem isFinished_true {p : Progress} (h : p.isFinished = true) : p = .finished := by
+  cases p <;> simp [Progress.isFinished] at h ⊢
+
+theorem nextR_key {now pto : Nat} {o : LoopOut} {a b : Peer} (h : NextR now pto o a b) :
+    b.key = a.key ∧ b.dist = a.dist ∧ b.pmatch = a.pmatch := by
+  rcases h with rfl | ⟨_, rfl, _⟩ | ⟨t, _, _, rfl⟩ <;> simp
+
+theorem atCapacity_false {q : Q} (h : atCapacity q = false) :
+    q.numWaiting < max q.cfg.parallelism q.cfg.numResults := by
+  unfold atCapacity at h
+  cases hp : q.progress with
+  | iterating n => rw [hp] at h; simp at h; omega
+  | stalled => rw [hp] at h; simp at h; omega
+  | finished => rw [hp] at h; simp at h
+
+theorem linv_next {s : Led} (h : LInv s) (now : Nat) : LInv (stepL s (.next now)) := by
+  by_cases hf : s.q.progress.isFinished = true
+  · have e1 : stepL s (.next now) = s := by
+      simp [stepL, stepQ, next, hf, emittedOf]
+    rw [e1]; exact h
+  · have hf' : s.q.progress.isFinished = false := by simpa using hf
+    have hnf := isFinished_false hf'
+    let L := nextLoop s.q.variant s.q.cfg now (atCapacity s.q) s.q.peers (some 0) s.q.numWaiting
+    have hrel : Rel2 (NextR now s.q.cfg.peerTimeout L.out) s.q.peers L.peers := nextLoop_rel _ _ _ _ _ _ _
+    have hout := nextLoop_out s.q.variant s.q.cfg now (atCapacity s.q) s.q.peers (some 0) s.q.numWaiting
+    have hcnt : L.nw = 0 + countW L.peers :=
+      nextLoop_count _ _ _ _ 0 _ _ _ (by rw [h.wc]; omega)
+    have hnw : L.nw ≤ s.q.numWaiting + 1 ∧ ((∀ k, L.out ≠ .emit k) → L.nw ≤ s.q.numWaiting) :=
+      nextLoop_nw_le s.q.variant s.q.cfg now (atCapacity s.q) s.q.peers (some 0) s.q.numWaiting
+    -- facts about the new peer list that do not depend on how the loop ended
+    have hsorted : Sorted L.peers := by
+      rw [sorted_iff_map, Rel2.map_eq (·.dist) (fun a b hab => (nextR_key hab).2.1) hrel, ← sorted_iff_map]
+      exact h.sorted
+    have hdist : DistOk s.q.target L.peers := by
+      intro b hb
+      obtain ⟨a, ha, hab⟩ := hrel.bwd b hb
+      rw [(nextR_key hab).1, (nextR_key hab).2.1]; exact h.distOk a ha
+    have hem : ∀ k ∈ s.emitted, ∃ e ∈ L.peers, e.key = k ∧ e.state ≠ .notContacted := by
+      intro k hk
+      obtain ⟨a, ha, hak, hast⟩ := h.em k hk
+      obtain ⟨b, hb, hab⟩ := hrel.fwd a ha
+      refine ⟨b, hb, by rw [(nextR_key hab).1, hak], ?_⟩
+      rcases hab with rfl | ⟨_, rfl, _⟩ | ⟨t, _, _, rfl⟩
+      · exact hast
+      · simp
+      · simp
+    have hans : ∀ e ∈ L.peers, e.state = .succeeded → e.key ∈ s.answered := by
+      intro b hb hbs
+      obtain ⟨a, ha, hab⟩ := hrel.bwd b hb
+      rcases hab with rfl | ⟨_, rfl, _⟩ | ⟨t, _, _, rfl⟩
+      · exact h.ans _ ha hbs
+      · simp at hbs
+      · simp at hbs
+    have hrep : ∀ e ∈ L.peers, (e.key, e.pmatch) ∈ s.reported := by
+      intro b hb
+      obtain ⟨a, ha, hab⟩ := hrel.bwd b hb
+      rw [(nextR_key hab).1, (nextR_key hab).2.2]; exact h.rep a ha
+    have hcon : ∀ e ∈ L.peers, e.state ≠ .notContacted →
+        e.key ∈ s.emitted ∨ L.out = .emit e.key := by
+      intro b hb hbs
+      obtain ⟨a, ha, hab⟩ := hrel.bwd b hb
+      rcases hab with rfl | ⟨_, rfl, ho⟩ | ⟨t, hat, _, rfl⟩
+      · exact Or.inl (h.con _ ha hbs)
+      · exact Or.inr ho
+      · exact Or.inl (h.con a ha (by rw [hat]; simp))
+    have hwc : L.nw = countW L.peers := by omega
+    cases hL : L.out with
+    | emit k =>
+      have e1 : stepL s (.next now) =
+          { q := { s.q with peers := L.peers, numWaiting := L.nw }, emitted := k :: s.emitted,
+            answered := s.answered, reported := s.reported } := by
+        simp [stepL, stepQ, next, hf', finishNext, L, hL, emittedOf]
+      rw [e1]
+      obtain ⟨hcap, e0, he0, he0k, he0s, he0m⟩ := hout.1 k hL
+      refine ⟨hsorted, hdist, hwc, ?_, ?_, ?_, hans, hrep, ?_, ?_⟩
+      · intro k' hk'
+        rcases List.mem_cons.mp hk' with rfl | hk''
+        · exact ⟨_, he0m, he0k, by simp⟩
+        · exact hem k' hk''
+      · intro b hb hbs
+        rcases hcon b hb hbs with h1 | h1
+        · exact List.mem_cons_of_mem _ h1
+        · rw [hL] at h1; cases h1; exact List.mem_cons_self
+      · refine List.nodup_cons.mpr ⟨?_, h.nd⟩
+        intro hk
+        obtain ⟨e1, he1, he1k, he1s⟩ := h.em k hk
+        have : e0 = e1 := sorted_inj h.sorted he0 he1 (by
+          rw [h.distOk e0 he0, h.distOk e1 he1, he0k, he1k])
+        rw [← this] at he1s; exact he1s he0s
+      · intro hp; exact absurd hp hnf
+      · have := atCapacity_false hcap
+        have := hnw.1
+        show L.nw ≤ max s.q.cfg.parallelism s.q.cfg.numResults
+        omega
+    | atCap =>
+      have e1 : stepL s (.next now) =
+          { q := { s.q with peers := L.peers, numWaiting := L.nw }, emitted := s.emitted,
+            answered := s.answered, reported := s.reported } := by
+        simp [stepL, stepQ, next, hf', finishNext, L, hL, emittedOf]
+      rw [e1]
+      refine ⟨hsorted, hdist, hwc, hem, ?_, h.nd, hans, hrep, ?_, ?_⟩
+      · intro b hb hbs
+        rcases hcon b hb hbs with h1 | h1
+        · exact h1
+        · rw [hL] at h1; cases h1
+      · intro hp; exact absurd hp hnf
+      · have := hnw.2 (by intro k hk; rw [hL] at hk; cases hk)
+        have := h.bnd
+        show L.nw ≤ max s.q.cfg.parallelism s.q.cfg.numResults
+        omega
+    | fin =>
+      have e1 : stepL s (.next now) =
+          { q := { s.q with peers := L.peers, numWaiting := L.nw, progress := .finished },
+            emitted := s.emitted, answered := s.answered, reported := s.reported } := by
+        simp [stepL, stepQ, next, hf', finishNext, L, hL, emittedOf]
+      rw [e1]
+      refine ⟨hsorted, hdist, hwc, hem, ?_, h.nd, hans, hrep, ?_, ?_⟩
+      · intro b hb hbs
+        rcases hcon b hb hbs with h1 | h1
+        · exact h1
+        · rw [hL] at h1; cases h1
+      · intro _
+        obtain ⟨c, hc, hle⟩ := hout.2.2.1 hL
+        cases hc
+        exact Or.inr (by simpa using hle)
+      · have := hnw.2 (by intro k hk; rw [hL] at hk; cases hk)
+        have := h.bnd
+        show L.nw ≤ max s.q.cfg.parallelism s.q.cfg.numResults
+        omega
+    | done =>
+      have hcon' : ∀ e ∈ L.peers, e.state ≠ .notContacted → e.key ∈ s.emitted := by
+        intro b hb hbs
+        rcases hcon b hb hbs with h1 | h1
+        · exact h1
+        · rw [hL] at h1; cases h1
+      have hb' : L.nw ≤ max s.q.cfg.parallelism s.q.cfg.numResults := by
+        have := hnw.2 (by intro k hk; rw [hL] at hk; cases hk)
+        have := h.bnd
+        omega
+      by_cases hz : L.nw > 0
+      · have e1 : stepL s (.next now) =
+            { q := { s.q with peers := L.peers, numWaiting := L.nw }, emitted := s.emitted,
+              answered := s.answered, reported := s.reported } := by
+          simp [stepL, stepQ, next, hf', finishNext, L, hL, emittedOf, hz]
+        rw [e1]
+        exact ⟨hsorted, hdist, hwc, hem, hcon', h.nd, hans, hrep, fun hp => absurd hp hnf, hb'⟩
+      · have e1 : stepL s (.next now) =
+            { q := { s.q with peers := L.peers, numWaiting := L.nw, progress := .finished },
+              emitted := s.emitted, answered := s.answered, reported := s.reported } := by
+          simp [stepL, stepQ, next, hf', finishNext, L, hL, emittedOf, hz]
+        rw [e1]
+        exact ⟨hsorted, hdist, hwc, hem, hcon', h.nd, hans, hrep,
+          fun _ => Or.inl (hout.2.1 hL), hb'⟩
+
+
+theorem updateProgress_ne_finished (cfg : Config) {p : Progress} (b : Bool) (h : p ≠ .finished) :
+    updateProgress cfg p b ≠ .finished := by
+  unfold updateProgress
+  cases p with
+  | iterating n =>
+    simp only
+    by_cases h1 : (if b = true then 0 else n + 1) ≥ cfg.parallelism
+    · rw [if_pos h1]; simp
+    · rw [if_neg h1]; simp
+  | stalled => cases b <;> simp
+  | finished => exact absurd rfl h
+
+/-- Enlarging the `answered` / `reported` ledgers keeps the invariant. -/
+theorem LInv.mono {s : Led} (h : LInv s) (a : List Nat) (r : List (Nat × Bool))
+    (ha : ∀ x ∈ s.answered, x ∈ a) (hr : ∀ x ∈ s.reported, x ∈ r) :
+    LInv { s with answered := a, reported := r } :=
+  ⟨h.sorted, h.distOk, h.wc, h.em, h.con, h.nd, fun e he hs => ha _ (h.ans e he hs),
+    fun e he => hr _ (h.rep e he), h.fin, h.bnd⟩
+
+theorem modR_succ_key {d n : Nat} {a b : Peer} (h : ModR d (markSucceeded n) a b) :
+    b.key = a.key ∧ b.dist = a.dist ∧ b.pmatch = a.pmatch := by
+  rcases h with rfl | ⟨_, rfl⟩ <;> simp [markSucceeded]
+
+theorem modR_fail_key {d : Nat} {a b : Peer} (h : ModR d markFailed a b) :
+    b.key = a.key ∧ b.dist = a.dist ∧ b.pmatch = a.pmatch := by
+  rcases h with rfl | ⟨_, rfl⟩ <;> simp [markFailed]
+
+/-- The effective branch of `on_success`: `q0` is `q` with `num_waiting` already adjusted. -/
+theorem linv_finishSuccess {s : Led} (h : LInv s) (p : Nat) (closer : List (Nat × Bool)) (e : Peer)
+    (hl : lookup (p ^^^ s.q.target) s.q.peers = some e) (hne : s.q.progress ≠ .finished)
+    (nw' : Nat)
+    (hst : (∃ t, e.state = .waiting t ∧ nw' = s.q.numWaiting - 1) ∨
+           (e.state = .unresponsive ∧ nw' = s.q.numWaiting)) :
+    LInv { q := finishSuccess { s.q with numWaiting := nw' } (p ^^^ s.q.target) closer,
+           emitted := s.emitted,
+           answered := (if p ∈ s.emitted then p :: s.answered else s.answered),
+           reported := closer ++ s.reported } := by
+  obtain ⟨hemem, hed⟩ := lookup_some hl
+  have hekey : e.key = p := xor_cancel (by rw [← h.distOk e hemem]; exact hed)
+  have hencs : e.state ≠ .notContacted := by
+    rcases hst with ⟨t, ht, _⟩ | ⟨hu, _⟩
+    · rw [ht]; simp
+    · rw [hu]; simp
+  have hpem : p ∈ s.emitted := by rw [← hekey]; exact h.con e hemem hencs
+  let d := p ^^^ s.q.target
+  let ps1 := modifyAt d (markSucceeded closer.length) s.q.peers
+  have hrel : Rel2 (ModR d (markSucceeded closer.length)) s.q.peers ps1 := modifyAt_rel _ _ _
+  have hs1 : Sorted ps1 := by
+    rw [sorted_iff_map, Rel2.map_eq (·.dist) (fun a b hab => (modR_succ_key hab).2.1) hrel, ← sorted_iff_map]
+    exact h.sorted
+  have hspec := incorporate_spec s.q.target s.q.cfg.numResults ps1.length closer (ps1, false) hs1
+  obtain ⟨i1, i2, i3, i4, _, _⟩ := hspec
+  have hc1 : countW ps1 + (if e.state.isWaiting then 1 else 0)
+      = countW s.q.peers + (if (markSucceeded closer.length e).state.isWaiting then 1 else 0) :=
+    countW_modifyAt (f := markSucceeded closer.length) hl
+  have i4' : countW (incorporate s.q.target s.q.cfg.numResults ps1.length closer (ps1, false)).1 = countW ps1 := i4
+  have hq : finishSuccess { s.q with numWaiting := nw' } (p ^^^ s.q.target) closer =
+      { s.q with numWaiting := nw',
+                 peers := (incorporate s.q.target s.q.cfg.numResults ps1.length closer (ps1, false)).1,
+                 progress := updateProgress s.q.cfg s.q.progress
+                   (incorporate s.q.target s.q.cfg.numResults ps1.length closer (ps1, false)).2 } := rfl
+  rw [hq, if_pos hpem]
+  refine ⟨i1, ?_, ?_, ?_, ?_, h.nd, ?_, ?_, ?_, ?_⟩
+  · -- distOk
+    intro x hx
+    rcases i3 x hx with hx1 | ⟨km, _, rfl⟩
+    · obtain ⟨a, ha, hab⟩ := hrel.bwd x hx1
+      rw [(modR_succ_key hab).1, (modR_succ_key hab).2.1]; exact h.distOk a ha
+    · rfl
+  · -- wc
+    show nw' = countW _
+    rw [i4']
+    have hw := h.wc
+    rcases hst with ⟨t, ht, hn⟩ | ⟨hu, hn⟩
+    · rw [ht] at hc1; simp [markSucceeded, PState.isWaiting] at hc1
+      show nw' = countW ps1
+      omega
+    · rw [hu] at hc1; simp [markSucceeded, PState.isWaiting] at hc1
+      show nw' = countW ps1
+      omega
+  · -- em
+    intro k hk
+    obtain ⟨a, ha, hak, has⟩ := h.em k hk
+    obtain ⟨b, hb, hab⟩ := hrel.fwd a ha
+    refine ⟨b, i2 b hb, by rw [(modR_succ_key hab).1, hak], ?_⟩
+    rcases hab with rfl | ⟨_, rfl⟩
+    · exact has
+    · simp [markSucceeded]
+  · -- con
+    intro x hx hxs
+    rcases i3 x hx with hx1 | ⟨km, _, rfl⟩
+    · obtain ⟨a, ha, hab⟩ := hrel.bwd x hx1
+      rcases hab with rfl | ⟨had, rfl⟩
+      · exact h.con _ ha hxs
+      · have : a = e := sorted_inj h.sorted ha hemem (by rw [had, hed])
+        show a.key ∈ s.emitted
+        rw [this, hekey]; exact hpem
+    · simp [mkPeer] at hxs
+  · -- ans
+    intro x hx hxs
+    rcases i3 x hx with hx1 | ⟨km, _, rfl⟩
+    · obtain ⟨a, ha, hab⟩ := hrel.bwd x hx1
+      rcases hab with rfl | ⟨had, rfl⟩
+      · exact List.mem_cons_of_mem _ (h.ans _ ha hxs)
+      · have : a = e := sorted_inj h.sorted ha hemem (by rw [had, hed])
+        show a.key ∈ p :: s.answered
+        rw [this, hekey]; exact List.mem_cons_self
+    · simp [mkPeer] at hxs
+  · -- rep
+    intro x hx
+    rcases i3 x hx with hx1 | ⟨km, hkm, rfl⟩
+    · obtain ⟨a, ha, hab⟩ := hrel.bwd x hx1
+      rw [(modR_succ_key hab).1, (modR_succ_key hab).2.2]
+      exact List.mem_append_right _ (h.rep a ha)
+    · exact List.mem_append_left _ hkm
+  · -- fin
+    intro hp
+    exact absurd hp (updateProgress_ne_finished _ _ hne)
+  · -- bnd
+    show nw' ≤ max s.q.cfg.parallelism s.q.cfg.numResults
+    have := h.bnd
+    rcases hst with ⟨_, _, hn⟩ | ⟨_, hn⟩ <;> omega
+
+theorem linv_success {s : Led} (h : LInv s) (p : Nat) (closer : List (Nat × Bool)) :
+    LInv (stepL s (.success p closer)) := by
+  have hnoop : LInv (Led.mk s.q s.emitted
+      (if p ∈ s.emitted then p :: s.answered else s.answered) (closer ++ s.reported)) := by
+    refine h.mono _ _ ?_ (fun x hx => List.mem_append_right _ hx)
+    intro x hx
+    by_cases hp : p ∈ s.emitted
+    · rw [if_pos hp]; exact List.mem_cons_of_mem _ hx
+    · rw [if_neg hp]; exact hx
+  have hstep : stepL s (.success p closer) = Led.mk (onSuccess s.q p closer) s.emitted
+        (if p ∈ s.emitted then p :: s.answered else s.answered) (closer ++ s.reported) := by
+    simp [stepL, stepQ, emittedOf]
+  rw [hstep]
+  unfold onSuccess
+  by_cases hf : s.q.progress.isFinished = true
+  · rw [if_pos hf]; exact hnoop
+  · rw [if_neg hf]
+    have hne := isFinished_false (by simpa using hf)
+    cases hl : lookup (p ^^^ s.q.target) s.q.peers with
+    | none => exact hnoop
+    | some e =>
+      simp only
+      cases hes : e.state with
+      | notContacted => exact hnoop
+      | failed => exact hnoop
+      | succeeded => exact hnoop
+      | waiting t =>
+        exact linv_finishSuccess h p closer e hl hne _ (Or.inl ⟨t, hes, rfl⟩)
+      | unresponsive =>
+        exact linv_finishSuccess h p closer e hl hne _ (Or.inr ⟨hes, rfl⟩)
+
+theorem linv_markFailed {s : Led} (h : LInv s) (p : Nat) (e : Peer)
+    (hl : lookup (p ^^^ s.q.target) s.q.peers = some e) (nw' : Nat)
+    (hst : (∃ t, e.state = .waiting t ∧ nw' = s.q.numWaiting - 1) ∨
+           (e.state = .unresponsive ∧ nw' = s.q.numWaiting)) :
+    LInv (Led.mk { s.q with numWaiting := nw', peers := modifyAt (p ^^^ s.q.target) markFailed s.q.peers }
+      s.emitted s.answered s.reported) := by
+  obtain ⟨hemem, hed⟩ := lookup_some hl
+  have hencs : e.state ≠ .notContacted := by
+    rcases hst with ⟨t, ht, _⟩ | ⟨hu, _⟩
+    · rw [ht]; simp
+    · rw [hu]; simp
+  let ps1 := modifyAt (p ^^^ s.q.target) markFailed s.q.peers
+  have hrel : Rel2 (ModR (p ^^^ s.q.target) markFailed) s.q.peers ps1 := modifyAt_rel _ _ _
+  have hs1 : Sorted ps1 := by
+    rw [sorted_iff_map, Rel2.map_eq (·.dist) (fun a b hab => (modR_fail_key hab).2.1) hrel, ← sorted_iff_map]
+    exact h.sorted
+  have hc1 : countW ps1 + (if e.state.isWaiting then 1 else 0)
+      = countW s.q.peers + (if (markFailed e).state.isWaiting then 1 else 0) :=
+    countW_modifyAt (f := markFailed) hl
+  refine ⟨hs1, ?_, ?_, ?_, ?_, h.nd, ?_, ?_, ?_, ?_⟩
+  · intro x hx
+    obtain ⟨a, ha, hab⟩ := hrel.bwd x hx
+    rw [(modR_fail_key hab).1, (modR_fail_key hab).2.1]; exact h.distOk a ha
+  · show nw' = countW ps1
+    have hw := h.wc
+    rcases hst with ⟨t, ht, hn⟩ | ⟨hu, hn⟩
+    · rw [ht] at hc1; simp [markFailed, PState.isWaiting] at hc1; omega
+    · rw [hu] at hc1; simp [markFailed, PState.isWaiting] at hc1; omega
+  · intro k hk
+    obtain ⟨a, ha, hak, has⟩ := h.em k hk
+    obtain ⟨b, hb, hab⟩ := hrel.fwd a ha
+    refine ⟨b, hb, by rw [(modR_fail_key hab).1, hak], ?_⟩
+    rcases hab with rfl | ⟨_, rfl⟩
+    · exact has
+    · simp [markFailed]
+  · intro x hx hxs
+    obtain ⟨a, ha, hab⟩ := hrel.bwd x hx
+    rcases hab with rfl | ⟨had, rfl⟩
+    · exact h.con _ ha hxs
+    · have : a = e := sorted_inj h.sorted ha hemem (by rw [had, hed])
+      show a.key ∈ s.emitted
+      rw [this]; exact h.con e hemem hencs
+  · intro x hx hxs
+    obtain ⟨a, ha, hab⟩ := hrel.bwd x hx
+    rcases hab with rfl | ⟨had, rfl⟩
+    · exact h.ans _ ha hxs
+    · simp [markFailed] at hxs
+  · intro x hx
+    obtain ⟨a, ha, hab⟩ := hrel.bwd x hx
+    rw [(modR_fail_key hab).1, (modR_fail_key hab).2.2]
+    exact h.rep a ha
+  · intro hp
+    rcases h.fin hp with h1 | h1
+    · left
+      intro x hx
+      obtain ⟨a, ha, hab⟩ := hrel.bwd x hx
+      rcases hab with rfl | ⟨_, rfl⟩
+      · exact h1 _ ha
+      · simp [markFailed]
+    · -- cannot happen (the caller is not finished), but the invariant needs no such hypothesis:
+      -- failing a peer that is Waiting / Unresponsive does not touch Succeeded entries
+      right
+      show s.q.cfg.numResults ≤ resCount s.q.variant ps1
+      have : resCount s.q.variant ps1 = resCount s.q.variant s.q.peers := by
+        have hgen : ∀ l : List Peer, (∀ a ∈ l, a.dist = p ^^^ s.q.target → a.state.isSucceeded = false) →
+            resCount s.q.variant (modifyAt (p ^^^ s.q.target) markFailed l) = resCount s.q.variant l := by
+          intro l
+          induction l with
+          | nil => intro _; rfl
+          | cons x xs ih =>
+            intro hx
+            unfold modifyAt
+            by_cases hxd : x.dist = p ^^^ s.q.target
+            · rw [if_pos hxd, resCount_cons, resCount_cons, hx x List.mem_cons_self hxd]
+              simp [markFailed, PState.isSucceeded]
+            · rw [if_neg hxd, resCount_cons, resCount_cons, ih (fun a ha => hx a (List.mem_cons_of_mem _ ha))]
+        apply hgen
+        intro a ha had
+        have : a = e := sorted_inj h.sorted ha hemem (by rw [had, hed])
+        rw [this]
+        rcases hst with ⟨t, ht, _⟩ | ⟨hu, _⟩
+        · rw [ht]; rfl
+        · rw [hu]; rfl
+      omega
+  · show nw' ≤ max s.q.cfg.parallelism s.q.cfg.numResults
+    have := h.bnd
+    rcases hst with ⟨_, _, hn⟩ | ⟨_, hn⟩ <;> omega
+
+theorem linv_failure {s : Led} (h : LInv s) (p : Nat) : LInv (stepL s (.failure p)) := by
+  have hnoop : LInv (Led.mk s.q s.emitted s.answered s.reported) := h
+  have hstep : stepL s (.failure p) = Led.mk (onFailure s.q p) s.emitted s.answered s.reported := by
+    simp [stepL, stepQ, emittedOf]
+  rw [hstep]
+  unfold onFailure
+  by_cases hf : s.q.progress.isFinished = true
+  · rw [if_pos hf]; exact hnoop
+  · rw [if_neg hf]
+    cases hl : lookup (p ^^^ s.q.target) s.q.peers with
+    | none => exact hnoop
+    | some e =>
+      simp only
+      cases hes : e.state with
+      | notContacted => exact hnoop
+      | failed => exact hnoop
+      | succeeded => exact hnoop
+      | waiting t => exact linv_markFailed h p e hl _ (Or.inl ⟨t, hes, rfl⟩)
+      | unresponsive =>
+        simp only
+        cases hv : s.q.variant with
+        | closest =>
+          have := linv_markFailed h p e hl s.q.numWaiting (Or.inr ⟨hes, rfl⟩)
+          simp only [hv] at this
+          exact this
+        | predicate => exact hnoop
+
+theorem linv_step {s : Led} (h : LInv s) (ev : Ev) : LInv (stepL s ev) := by
+  cases ev with
+  | next now => exact linv_next h now
+  | success p closer => exact linv_success h p closer
+  | failure p => exact linv_failure h p
+
+theorem linv_run {s : Led} (h : LInv s) (evs : List Ev) : LInv (runL s evs) := by
+  induction evs generalizing s with
+  | nil => exact h
+  | cons ev evs ih => exact ih (linv_step h ev)
+
+/-! ### the initial state -/
+
+theorem foldl_insertRepl_spec (t : Nat) : ∀ (l : List (Nat × Bool)) (acc : List Peer),
+    Sorted acc →
+    Sorted (l.foldl (fun ps km => insertRepl (mkPeer t km.1 km.2) ps) acc) ∧
+    ∀ x ∈ l.foldl (fun ps km => insertRepl (mkPeer t km.1 km.2) ps) acc,
+      x ∈ acc ∨ ∃ km ∈ l, x = mkPeer t km.1 km.2
+  | [], acc, hs => ⟨hs, fun x hx => Or.inl hx⟩
+  | km :: rest, acc, hs => by
+    simp only [List.foldl_cons]
+    obtain ⟨h1, h2⟩ := foldl_insertRepl_spec t rest _ (sorted_insertRepl (p := mkPeer t km.1 km.2) hs)
+    refine ⟨h1, ?_⟩
+    intro x hx
+    rcases h2 x hx with h | ⟨km', hk, rfl⟩
+    · rcases mem_insertRepl h with rfl | h'
+      · exact Or.inr ⟨km, List.mem_cons_self, rfl⟩
+      · exact Or.inl h'
+    · exact Or.inr ⟨km', List.mem_cons_of_mem _ hk, rfl⟩
+
+theorem linv_init (v : Variant) (cfg : Config) (t : Nat) (known : List (Nat × Bool)) :
+    LInv (Led.init v cfg t known) := by
+  obtain ⟨h1, h2⟩ := foldl_insertRepl_spec t (known.take cfg.numResults) [] (by simp [Sorted])
+  have hall : ∀ x ∈ (withConfig v cfg t known).peers, ∃ km ∈ known.take cfg.numResults, x = mkPeer t km.1 km.2 := by
+    intro x hx
+    rcases h2 x hx with h | h
+    · cases h
+    · exact h
+  have hnc : ∀ x ∈ (withConfig v cfg t known).peers, x.state = .notContacted := by
+    intro x hx
+    obtain ⟨km, _, rfl⟩ := hall x hx
+    rfl
+  refine ⟨h1, ?_, ?_, ?_, ?_, List.nodup_nil, ?_, ?_, ?_, ?_⟩
+  · intro x hx
+    obtain ⟨km, _, rfl⟩ := hall x hx
+    rfl
+  · show 0 = countW (withConfig v cfg t known).peers
+    unfold countW
+    symm
+    rw [List.countP_eq_zero]
+    intro x hx
+    rw [hnc x hx]; simp [PState.isWaiting]
+  · intro k hk; cases hk
+  · intro x hx hxs; exact absurd (hnc x hx) hxs
+  · intro x hx hxs; rw [hnc x hx] at hxs; cases hxs
+  · intro x hx
+    obtain ⟨km, hkm, rfl⟩ := hall x hx
+    exact hkm
+  · intro hp; cases hp
+  · show 0 ≤ _; omega
+
+
+/-! ### the pool -/
+
+def Pool.ids (p : Pool) : List Nat := p.queries.map (·.id)
+
+structure PoolInv (p : Pool) : Prop where
+  nodup : p.ids.Nodup
+  lt : ∀ i ∈ p.ids, i < p.nextId
+
+def adds : List PEv → Nat
+  | [] => 0
+  | .add _ _ _ _ :: evs => adds evs + 1
+  | _ :: evs => adds evs
+
+/-- The id counter does not wrap around along the history. -/
+def NoWrap (p : Pool) (evs : List PEv) : Prop := p.nextId + adds evs < idModulus
+
+def retId : PoolOut → Option Nat
+  | .finished i _ => some i
+  | .timeout i _ => some i
+  | _ => none
+
+def mentions (r : Nat) : PoolOut → Bool
+  | .waitingSome i _ => i == r
+  | .finished i _ => i == r
+  | .timeout i _ => i == r
+  | _ => false
+
+/-- Ids handed back by `poll` (as `Finished` or `Timeout`) along a history. -/
+def returned (p : Pool) (evs : List PEv) : List Nat := (outsP p evs).filterMap retId
+
+theorem replaceQ_ids (x : PQ) (qs : List PQ) : (replaceQ x qs).map (·.id) = qs.map (·.id) := by
+  unfold replaceQ
+  rw [List.map_map]
+  apply List.map_congr_left
+  intro y _
+  by_cases h : y.id = x.id
+  · simp [h]
+  · simp [h]
+
+theorem find_id {qs : List PQ} {i : Nat} {x : PQ} (h : qs.find? (fun y => y.id == i) = some x) :
+    x ∈ qs ∧ x.id = i := by
+  refine ⟨List.mem_of_find?_eq_some h, ?_⟩
+  have := List.find?_some h
+  simpa using this
+
+theorem find_none_id {qs : List PQ} {i : Nat} (h : qs.find? (fun y => y.id == i) = none) :
+    i ∉ qs.map (·.id) := by
+  intro hi
+  obtain ⟨y, hy, hyi⟩ := List.mem_map.mp hi
+  have := List.find?_eq_none.mp h y hy
+  simp [hyi] at this
+
+theorem find_replaceQ {qs : List PQ} {x x' : PQ} (hx : x ∈ qs) (hid : x'.id = x.id) :
+    (replaceQ x' qs).find? (fun y => y.id == x.id) = some x' := by
+  induction qs with
+  | nil => cases hx
+  | cons y ys ih =>
+    unfold replaceQ
+    simp only [List.map_cons]
+    by_cases hy : y.id = x'.id
+    · rw [if_pos hy]
+      rw [List.find?_cons]
+      simp [hid]
+    · rw [if_neg hy]
+      rw [List.find?_cons]
+      have : (y.id == x.id) = false := by simp; rw [← hid]; exact hy
+      rw [this]
+      rcases List.mem_cons.mp hx with rfl | hx'
+      · exact absurd hid.symm hy
+      · exact ih hx'
+
+theorem removeQ_ids (i : Nat) (qs : List PQ) : (removeQ i qs).map (·.id) = (qs.map (·.id)).filter (· != i) := by
+  unfold removeQ
+  induction qs with
+  | nil => rfl
+  | cons y ys ih =>
+    by_cases h : y.id = i
+    · simp [List.filter_cons, h, ih]
+    · simp [List.filter_cons, h, ih]
+
+/-- Facts about the loop of `poll`. -/
+theorem pollLoop_spec (timeout now : Nat) : ∀ (order : List Nat) (qs : List PQ),
+    ((pollLoop timeout now order qs).1.map (·.id) = qs.map (·.id)) ∧
+    (∀ i, (pollLoop timeout now order qs).2 = .fin i → i ∈ qs.map (·.id)) ∧
+    (∀ i k, (pollLoop timeout now order qs).2 = .wait i k → i ∈ qs.map (·.id)) ∧
+    (∀ i, (pollLoop timeout now order qs).2 = .tmo i → i ∈ qs.map (·.id))
+  | [], qs => by simp [pollLoop]
+  | i :: rest, qs => by
+    unfold pollLoop
+    cases hfind : qs.find? (fun x => x.id == i) with
+    | none => exact pollLoop_spec timeout now rest qs
+    | some x =>
+      obtain ⟨hx, hxi⟩ := find_id hfind
+      have himem : i ∈ qs.map (·.id) := List.mem_map.mpr ⟨x, hx, hxi⟩
+      simp only
+      have hids : (replaceQ { x with q := (next x.q now).1, started := some (x.started.getD now) } qs).map (·.id)
+          = qs.map (·.id) := replaceQ_ids _ _
+      have ih := pollLoop_spec timeout now rest
+        (replaceQ { x with q := (next x.q now).1, started := some (x.started.getD now) } qs)
+      rw [hids] at ih
+      cases hst : (next x.q now).2 with
+      | finished =>
+        simp only
+        refine ⟨hids, ?_, by simp, by simp⟩
+        intro j hj; simp at hj; rw [← hj]; exact himem
+      | waitingAtCapacity =>
+        simp only
+        by_cases hto : now - x.started.getD now ≥ timeout
+        · rw [if_pos hto]
+          refine ⟨hids, by simp, by simp, ?_⟩
+          intro j hj; simp at hj; rw [← hj]; exact himem
+        · rw [if_neg hto]; exact ih
+      | waiting o =>
+        cases o with
+        | some k =>
+          simp only
+          refine ⟨hids, by simp, ?_, by simp⟩
+          intro j k' hj; simp at hj; rw [← hj.1]; exact himem
+        | none =>
+          simp only
+          by_cases hto : now - x.started.getD now ≥ timeout
+          · rw [if_pos hto]
+            refine ⟨hids, by simp, by simp, ?_⟩
+            intro j hj; simp at hj; rw [← hj]; exact himem
+          · rw [if_neg hto]; exact ih
+
+theorem mem_filter_ne {l : List Nat} {i x : Nat} : x ∈ l.filter (· != i) ↔ x ∈ l ∧ x ≠ i := by
+  simp [List.mem_filter]
+
+/-- What one `poll` does to the set of ids, and which ids its return value can mention. -/
+theorem poll_spec (p : Pool) (now : Nat) (order : List Nat) :
+    (p.poll now order).1.nextId = p.nextId ∧
+    (((p.poll now order).1.ids = p.ids ∧ retId (p.poll now order).2 = none ∧
+        ∀ r, mentions r (p.poll now order).2 = true → r ∈ p.ids) ∨
+     (∃ i, retId (p.poll now order).2 = some i ∧ i ∈ p.ids ∧
+        (p.poll now order).1.ids = p.ids.filter (· != i) ∧
+        ∀ r, mentions r (p.poll now order).2 = true → r = i)) := by
+  have hs := pollLoop_spec p.timeout now order p.queries
+  unfold Pool.poll
+  dsimp only
+  cases hb : (pollLoop p.timeout now order p.queries).2 with
+  | none =>
+    simp only
+    refine ⟨trivial, Or.inl ⟨hs.1, ?_, ?_⟩⟩
+    · by_cases he : (pollLoop p.timeout now order p.queries).1.isEmpty = true
+      · rw [if_pos he]; rfl
+      · rw [if_neg he]; rfl
+    · intro r
+      by_cases he : (pollLoop p.timeout now order p.queries).1.isEmpty = true
+      · rw [if_pos he]; simp [mentions]
+      · rw [if_neg he]; simp [mentions]
+  | wait i k =>
+    simp only
+    refine ⟨trivial, Or.inl ⟨hs.1, rfl, ?_⟩⟩
+    intro r hr
+    simp [mentions] at hr
+    rw [← hr]; exact hs.2.2.1 i k hb
+  | fin i =>
+    simp only
+    have hi := hs.2.1 i hb
+    cases hfind : (pollLoop p.timeout now order p.queries).1.find? (fun x => x.id == i) with
+    | none => exact absurd (hs.1 ▸ hi) (find_none_id hfind)
+    | some x =>
+      simp only
+      refine ⟨trivial, Or.inr ⟨i, rfl, hi, ?_, ?_⟩⟩
+      · show (removeQ i _).map (·.id) = _
+        rw [removeQ_ids, hs.1]; rfl
+      · intro r hr; simp [mentions] at hr; exact hr.symm
+  | tmo i =>
+    simp only
+    have hi := hs.2.2.2 i hb
+    cases hfind : (pollLoop p.timeout now order p.queries).1.find? (fun x => x.id == i) with
+    | none => exact absurd (hs.1 ▸ hi) (find_none_id hfind)
+    | some x =>
+      simp only
+      refine ⟨trivial, Or.inr ⟨i, rfl, hi, ?_, ?_⟩⟩
+      · show (removeQ i _).map (·.id) = _
+        rw [removeQ_ids, hs.1]; rfl
+      · intro r hr; simp [mentions] at hr; exact hr.symm
+
+theorem onSuccess_ids (p : Pool) (id peer : Nat) (closer : List (Nat × Bool)) :
+    (p.onSuccess id peer closer).ids = p.ids ∧ (p.onSuccess id peer closer).nextId = p.nextId := by
+  unfold Pool.onSuccess
+  cases p.get id with
+  | none => exact ⟨rfl, rfl⟩
+  | some x => exact ⟨replaceQ_ids _ _, rfl⟩
+
+theorem onFailure_ids (p : Pool) (id peer : Nat) :
+    (p.onFailure id peer).ids = p.ids ∧ (p.onFailure id peer).nextId = p.nextId := by
+  unfold Pool.onFailure
+  cases p.get id with
+  | none => exact ⟨rfl, rfl⟩
+  | some x => exact ⟨replaceQ_ids _ _, rfl⟩
+
+theorem add_ids (p : Pool) (q : Q) :
+    (p.add q).1.ids = p.nextId :: p.ids.filter (· != p.nextId) ∧
+    (p.add q).1.nextId = (p.nextId + 1) % idModulus := by
+  refine ⟨?_, rfl⟩
+  show (_ :: (p.queries.filter _).map (·.id)) = _
+  have := removeQ_ids p.nextId p.queries
+  unfold removeQ at this
+  rw [this]; rfl
+
+/-- One pool event: the invariant, the id counter, the ids, and what the return value mentions. -/
+theorem stepP_spec {p : Pool} (h : PoolInv p) (ev : PEv) (hw : NoWrap p [ev]) :
+    PoolInv (stepP p ev).1 ∧
+    (stepP p ev).1.nextId = p.nextId + adds [ev] ∧
+    (∀ i ∈ (stepP p ev).1.ids, i ∈ p.ids ∨ p.nextId ≤ i) ∧
+    (∀ o, (stepP p ev).2 = some o →
+      (∀ r, mentions r o = true → r ∈ p.ids) ∧
+      (∀ r, retId o = some r → r ∈ p.ids ∧ r ∉ (stepP p ev).1.ids)) := by
+  cases ev with
+  | add v cfg t known =>
+    obtain ⟨hids, hn⟩ := add_ids p (withConfig v cfg t known)
+    have hw' : p.nextId + 1 < idModulus := by simpa [NoWrap, adds] using hw
+    have hn' : (p.add (withConfig v cfg t known)).1.nextId = p.nextId + 1 := by
+      rw [hn]; exact Nat.mod_eq_of_lt hw'
+    refine ⟨⟨?_, ?_⟩, ?_, ?_, ?_⟩
+    · show (p.add (withConfig v cfg t known)).1.ids.Nodup
+      rw [hids]
+      refine List.nodup_cons.mpr ⟨?_, ?_⟩
+      · intro hm; exact (mem_filter_ne.mp hm).2 rfl
+      · exact List.Nodup.sublist List.filter_sublist h.nodup
+    · intro i hi
+      show i < (p.add (withConfig v cfg t known)).1.nextId
+      rw [hn']
+      have hi' : i ∈ (p.add (withConfig v cfg t known)).1.ids := hi
+      rw [hids] at hi'
+      rcases List.mem_cons.mp hi' with rfl | hi''
+      · omega
+      · have := h.lt i (mem_filter_ne.mp hi'').1; omega
+    · show (p.add (withConfig v cfg t known)).1.nextId = _
+      rw [hn']; simp [adds]
+    · intro i hi
+      have hi' : i ∈ (p.add (withConfig v cfg t known)).1.ids := hi
+      rw [hids] at hi'
+      rcases List.mem_cons.mp hi' with rfl | hi''
+      · exact Or.inr (Nat.le_refl _)
+      · exact Or.inl (mem_filter_ne.mp hi'').1
+    · intro o ho; simp [stepP] at ho
+  | poll now order =>
+    obtain ⟨hn, hcase⟩ := poll_spec p now order
+    have hstep : stepP p (.poll now order) = ((p.poll now order).1, some (p.poll now order).2) := rfl
+    rw [hstep]
+    simp only
+    rcases hcase with ⟨hids, hret, hmen⟩ | ⟨i, hret, hi, hids, hmen⟩
+    · refine ⟨⟨by rw [hids]; exact h.nodup, ?_⟩, by rw [hn]; simp [adds], ?_, ?_⟩
+      · intro j hj; rw [hn]; rw [hids] at hj; exact h.lt j hj
+      · intro j hj; rw [hids] at hj; exact Or.inl hj
+      · intro o ho
+        cases ho
+        refine ⟨hmen, ?_⟩
+        intro r hr; rw [hret] at hr; cases hr
+    · refine ⟨⟨by rw [hids]; exact List.Nodup.sublist List.filter_sublist h.nodup, ?_⟩,
+        by rw [hn]; simp [adds], ?_, ?_⟩
+      · intro j hj; rw [hn]; rw [hids] at hj; exact h.lt j (mem_filter_ne.mp hj).1
+      · intro j hj; rw [hids] at hj; exact Or.inl (mem_filter_ne.mp hj).1
+      · intro o ho
+        cases ho
+        refine ⟨?_, ?_⟩
+        · intro r hr; rw [hmen r hr]; exact hi
+        · intro r hr
+          rw [hret] at hr; cases hr
+          refine ⟨hi, ?_⟩
+          rw [hids]; intro hm; exact (mem_filter_ne.mp hm).2 rfl
+  | success id peer closer =>
+    obtain ⟨hids, hn⟩ := onSuccess_ids p id peer closer
+    have hstep : stepP p (.success id peer closer) = (p.onSuccess id peer closer, none) := rfl
+    rw [hstep]
+    simp only
+    refine ⟨⟨by rw [hids]; exact h.nodup, ?_⟩, by rw [hn]; simp [adds], ?_, ?_⟩
+    · intro j hj; rw [hn]; rw [hids] at hj; exact h.lt j hj
+    · intro j hj; rw [hids] at hj; exact Or.inl hj
+    · intro o ho; cases ho
+  | failure id peer =>
+    obtain ⟨hids, hn⟩ := onFailure_ids p id peer
+    have hstep : stepP p (.failure id peer) = (p.onFailure id peer, none) := rfl
+    rw [hstep]
+    simp only
+    refine ⟨⟨by rw [hids]; exact h.nodup, ?_⟩, by rw [hn]; simp [adds], ?_, ?_⟩
+    · intro j hj; rw [hn]; rw [hids] at hj; exact h.lt j hj
+    · intro j hj; rw [hids] at hj; exact Or.inl hj
+    · intro o ho; cases ho
+
+theorem adds_cons (ev : PEv) (evs : List PEv) : adds (ev :: evs) = adds [ev] + adds evs := by
+  cases ev <;> simp [adds] <;> omega
+
+theorem noWrap_head {p : Pool} {ev : PEv} {evs : List PEv} (h : NoWrap p (ev :: evs)) : NoWrap p [ev] := by
+  unfold NoWrap at *; rw [adds_cons] at h
+  have : adds [ev] = adds [ev] + adds [] := by simp [adds]
+  omega
+
+theorem noWrap_tail {p : Pool} (hp : PoolInv p) {ev : PEv} {evs : List PEv} (h : NoWrap p (ev :: evs)) :
+    NoWrap (stepP p ev).1 evs := by
+  have := (stepP_spec hp ev (noWrap_head h)).2.1
+  unfold NoWrap at *; rw [adds_cons] at h; omega
+
+theorem outsP_cons (p : Pool) (ev : PEv) (evs : List PEv) :
+    outsP p (ev :: evs) = (stepP p ev).2.toList ++ outsP (stepP p ev).1 evs := by
+  show (match (stepP p ev).2 with | some o => o :: outsP (stepP p ev).1 evs | none => outsP (stepP p ev).1 evs) = _
+  cases (stepP p ev).2 <;> rfl
+
+/-- An id that was handed back later must be in the pool now or be created later. -/
+theorem returned_mem {p : Pool} (hp : PoolInv p) : ∀ (evs : List PEv), NoWrap p evs →
+    ∀ r ∈ returned p evs, r ∈ p.ids ∨ p.nextId ≤ r
+  | [], _, r, hr => by simp [returned, outsP] at hr
+  | ev :: evs, hw, r, hr => by
+    obtain ⟨hp', hn, hids, hout⟩ := stepP_spec hp ev (noWrap_head hw)
+    unfold returned at hr
+    rw [outsP_cons, List.filterMap_append] at hr
+    rcases List.mem_append.mp hr with h1 | h1
+    · cases ho : (stepP p ev).2 with
+      | none => rw [ho] at h1; simp at h1
+      | some o =>
+        rw [ho] at h1
+        simp at h1
+        exact Or.inl ((hout o ho).2 r h1).1
+    · rcases returned_mem hp' evs (noWrap_tail hp hw) r h1 with h2 | h2
+      · exact hids r h2
+      · right; omega
+
+/-- An id that is absent and below the counter stays absent, and no return value mentions it. -/
+theorem absent_forever {p : Pool} (hp : PoolInv p) (r : Nat) : ∀ (evs : List PEv), NoWrap p evs →
+    r ∉ p.ids → r < p.nextId →
+    (∀ o ∈ outsP p evs, mentions r o = false) ∧
+    (∀ pre post, evs = pre ++ post → r ∉ (runP p pre).ids)
+  | [], _, hr, _ => by
+    refine ⟨by simp [outsP], ?_⟩
+    intro pre post h
+    have : pre = [] := by
+      cases pre with
+      | nil => rfl
+      | cons a as => simp at h
+    rw [this]; exact hr
+  | ev :: evs, hw, hr, hlt => by
+    obtain ⟨hp', hn, hids, hout⟩ := stepP_spec hp ev (noWrap_head hw)
+    have hr' : r ∉ (stepP p ev).1.ids := by
+      intro hm
+      rcases hids r hm with h1 | h1
+      · exact hr h1
+      · omega
+    have hlt' : r < (stepP p ev).1.nextId := by omega
+    obtain ⟨ih1, ih2⟩ := absent_forever hp' r evs (noWrap_tail hp hw) hr' hlt'
+    refine ⟨?_, ?_⟩
+    · intro o ho
+      rw [outsP_cons] at ho
+      rcases List.mem_append.mp ho with h1 | h1
+      · cases hso : (stepP p ev).2 with
+        | none => rw [hso] at h1; simp at h1
+        | some o' =>
+          rw [hso] at h1
+          simp at h1
+          subst h1
+          cases hm : mentions r o with
+          | false => rfl
+          | true => exact absurd ((hout o hso).1 r hm) hr
+      · exact ih1 o h1
+    · intro pre post h
+      cases pre with
+      | nil => exact hr
+      | cons a as =>
+        simp at h
+        obtain ⟨rfl, h'⟩ := h
+        exact ih2 as post h'
+
+theorem removeQ_find_none (i : Nat) (qs : List PQ) : (removeQ i qs).find? (fun y => y.id == i) = none := by
+  rw [List.find?_eq_none]
+  intro y hy
+  unfold removeQ at hy
+  have := (List.mem_filter.mp hy).2
+  simpa using this
+
+/-- Is this query past the pool's timeout at `now` (as `poll` computes it)? -/
+def TimedOut (timeout now : Nat) (x : PQ) : Prop := now - x.started.getD now ≥ timeout
+
+theorem timedOut_replace {timeout now : Nat} {x : PQ} (q' : Q) (h : TimedOut timeout now x) :
+    TimedOut timeout now { x with q := q', started := some (x.started.getD now) } := h
+
+/-- `poll` that visits query `i` first while `i` is past the timeout: either a request for `i`
+is handed out, or `i` is handed back (Finished / Timeout) and is no longer in the pool. -/
+theorem poll_timed_out_first (p : Pool) (now i : Nat) (rest : List Nat) (x : PQ)
+    (hx : p.get i = some x) (hto : TimedOut p.timeout now x) :
+    (∃ k, (p.poll now (i :: rest)).2 = .waitingSome i k) ∨
+    ((∃ q, (p.poll now (i :: rest)).2 = .finished i q ∨ (p.poll now (i :: rest)).2 = .timeout i q) ∧
+      (p.poll now (i :: rest)).1.get i = none) := by
+  have hfind : p.queries.find? (fun y => y.id == i) = some x := hx
+  obtain ⟨hxm, hxi⟩ := find_id hfind
+  subst hxi
+  have hto' : now - x.started.getD now ≥ p.timeout := hto
+  have hfind' : ∀ q', (replaceQ { x with q := q', started := some (x.started.getD now) } p.queries).find?
+      (fun y => y.id == x.id) = some { x with q := q', started := some (x.started.getD now) } := by
+    intro q'
+    exact find_replaceQ (x' := { x with q := q', started := some (x.started.getD now) }) hxm rfl
+  unfold Pool.poll pollLoop
+  rw [hfind]
+  dsimp only
+  cases hst : (next x.q now).2 with
+  | finished =>
+    dsimp only
+    rw [hfind']
+    dsimp only
+    exact Or.inr ⟨⟨_, Or.inl rfl⟩, removeQ_find_none _ _⟩
+  | waitingAtCapacity =>
+    dsimp only
+    rw [if_pos hto']
+    dsimp only
+    rw [hfind']
+    dsimp only
+    exact Or.inr ⟨⟨_, Or.inr rfl⟩, removeQ_find_none _ _⟩
+  | waiting o =>
+    cases o with
+    | some k => exact Or.inl ⟨k, rfl⟩
+    | none =>
+      dsimp only
+      rw [if_pos hto']
+      dsimp only
+      rw [hfind']
+      dsimp only
+      exact Or.inr ⟨⟨_, Or.inr rfl⟩, removeQ_find_none _ _⟩
+
+theorem mem_replaceQ {x' y : PQ} {qs : List PQ} (h : y ∈ replaceQ x' qs) : y = x' ∨ y ∈ qs := by
+  unfold replaceQ at h
+  obtain ⟨z, hz, rfl⟩ := List.mem_map.mp h
+  by_cases hzi : z.id = x'.id
+  · rw [if_pos hzi]; exact Or.inl rfl
+  · rw [if_neg hzi]; exact Or.inr hz
+
+/-- If every query is past the timeout and the visiting order reaches at least one query of the
+pool, the loop of `poll` breaks. -/
+theorem pollLoop_breaks (timeout now : Nat) : ∀ (order : List Nat) (qs : List PQ),
+    (∀ x ∈ qs, TimedOut timeout now x) → (∃ i ∈ order, i ∈ qs.map (·.id)) →
+    (pollLoop timeout now order qs).2 ≠ .none
+  | [], qs, _, ⟨i, hi, _⟩ => by cases hi
+  | j :: rest, qs, hall, ⟨i, hi, him⟩ => by
+    unfold pollLoop
+    cases hfind : qs.find? (fun x => x.id == j) with
+    | none =>
+      dsimp only
+      apply pollLoop_breaks timeout now rest qs hall
+      rcases List.mem_cons.mp hi with rfl | hi'
+      · exact absurd him (find_none_id hfind)
+      · exact ⟨i, hi', him⟩
+    | some x =>
+      obtain ⟨hxm, _⟩ := find_id hfind
+      dsimp only
+      cases hst : (next x.q now).2 with
+      | finished => simp
+      | waitingAtCapacity =>
+        dsimp only
+        rw [if_pos (show now - x.started.getD now ≥ timeout from hall x hxm)]; simp
+      | waiting o =>
+        cases o with
+        | some k => simp
+        | none =>
+          dsimp only
+          rw [if_pos (show now - x.started.getD now ≥ timeout from hall x hxm)]; simp
+
+theorem length_filter_ne_lt {l : List Nat} {i : Nat} (h : i ∈ l) : (l.filter (· != i)).length < l.length := by
+  induction l with
+  | nil => cases h
+  | cons a as ih =>
+    by_cases ha : a = i
+    · subst ha
+      have : ((a :: as).filter (· != a)) = as.filter (· != a) := by simp [List.filter_cons]
+      rw [this]
+      have := List.length_filter_le (· != a) as
+      simp only [List.length_cons]; omega
+    · have hi : i ∈ as := by
+        rcases List.mem_cons.mp h with rfl | h'
+        · exact absurd rfl ha
+        · exact h'
+      have : ((a :: as).filter (· != i)) = a :: as.filter (· != i) := by simp [List.filter_cons, ha]
+      rw [this]
+      have := ih hi
+      simp only [List.length_cons]; omega
+
+/-- For every visiting order: when all queries are past the timeout, `poll` hands out a request
+or hands a query back (and the pool shrinks). -/
+theorem poll_all_timed_out (p : Pool) (now : Nat) (order : List Nat)
+    (hall : ∀ x ∈ p.queries, TimedOut p.timeout now x) (hord : ∃ i ∈ order, i ∈ p.ids) :
+    (∃ i k, (p.poll now order).2 = .waitingSome i k) ∨
+    (∃ i, retId (p.poll now order).2 = some i ∧ (p.poll now order).1.ids.length < p.ids.length) := by
+  have hbrk := pollLoop_breaks p.timeout now order p.queries hall hord
+  obtain ⟨_, hcase⟩ := poll_spec p now order
+  rcases hcase with ⟨_, hret, _⟩ | ⟨i, hret, hi, hids, _⟩
+  · left
+    -- no query was handed back, so the loop broke on a request
+    unfold Pool.poll at hret ⊢
+    dsimp only at hret ⊢
+    cases hb : (pollLoop p.timeout now order p.queries).2 with
+    | none => exact absurd hb hbrk
+    | wait i k => exact ⟨i, k, by simp only⟩
+    | fin i =>
+      rw [hb] at hret
+      dsimp only at hret
+      have hs := pollLoop_spec p.timeout now order p.queries
+      cases hfind : (pollLoop p.timeout now order p.queries).1.find? (fun x => x.id == i) with
+      | none => exact absurd (hs.1 ▸ hs.2.1 i hb) (find_none_id hfind)
+      | some x => rw [hfind] at hret; simp [retId] at hret
+    | tmo i =>
+      rw [hb] at hret
+      dsimp only at hret
+      have hs := pollLoop_spec p.timeout now order p.queries
+      cases hfind : (pollLoop p.timeout now order p.queries).1.find? (fun x => x.id == i) with
+      | none => exact absurd (hs.1 ▸ hs.2.2.2 i hb) (find_none_id hfind)
+      | some x => rw [hfind] at hret; simp [retId] at hret
+  · right
+    exact ⟨i, hret, by rw [hids]; exact length_filter_ne_lt hi⟩
+
+
+/-! ### configuration, variant and target never change -/
+
+theorem next_const (q : Q) (now : Nat) :
+    (next q now).1.cfg = q.cfg ∧ (next q now).1.variant = q.variant ∧ (next q now).1.target = q.target := by
+  unfold next
+  by_cases hf : q.progress.isFinished = true
+  · rw [if_pos hf]; exact ⟨rfl, rfl, rfl⟩
+  · rw [if_neg hf]
+    unfold finishNext
+    cases (nextLoop q.variant q.cfg now (atCapacity q) q.peers (some 0) q.numWaiting).out with
+    | emit k => exact ⟨rfl, rfl, rfl⟩
+    | atCap => exact ⟨rfl, rfl, rfl⟩
+    | fin => exact ⟨rfl, rfl, rfl⟩
+    | done =>
+      dsimp only
+      by_cases hz : (nextLoop q.variant q.cfg now (atCapacity q) q.peers (some 0) q.numWaiting).nw > 0
+      · rw [if_pos hz]; exact ⟨rfl, rfl, rfl⟩
+      · rw [if_neg hz]; exact ⟨rfl, rfl, rfl⟩
+
+theorem onSuccess_const (q : Q) (p : Nat) (closer : List (Nat × Bool)) :
+    (onSuccess q p closer).cfg = q.cfg ∧ (onSuccess q p closer).variant = q.variant ∧
+      (onSuccess q p closer).target = q.target := by
+  unfold onSuccess
+  by_cases hf : q.progress.isFinished = true
+  · rw [if_pos hf]; exact ⟨rfl, rfl, rfl⟩
+  · rw [if_neg hf]
+    cases lookup (p ^^^ q.target) q.peers with
+    | none => exact ⟨rfl, rfl, rfl⟩
+    | some e =>
+      dsimp only
+      cases e.state <;> exact ⟨rfl, rfl, rfl⟩
+
+theorem onFailure_const (q : Q) (p : Nat) :
+    (onFailure q p).cfg = q.cfg ∧ (onFailure q p).variant = q.variant ∧ (onFailure q p).target = q.target := by
+  unfold onFailure
+  by_cases hf : q.progress.isFinished = true
+  · rw [if_pos hf]; exact ⟨rfl, rfl, rfl⟩
+  · rw [if_neg hf]
+    cases lookup (p ^^^ q.target) q.peers with
+    | none => exact ⟨rfl, rfl, rfl⟩
+    | some e =>
+      dsimp only
+      cases e.state with
+      | unresponsive => dsimp only; cases hv : q.variant <;> simp [hv]
+      | notContacted => exact ⟨rfl, rfl, rfl⟩
+      | waiting t => exact ⟨rfl, rfl, rfl⟩
+      | failed => exact ⟨rfl, rfl, rfl⟩
+      | succeeded => exact ⟨rfl, rfl, rfl⟩
+
+theorem stepL_const (s : Led) (ev : Ev) :
+    (stepL s ev).q.cfg = s.q.cfg ∧ (stepL s ev).q.variant = s.q.variant ∧ (stepL s ev).q.target = s.q.target := by
+  cases ev with
+  | next now => exact next_const s.q now
+  | success p closer => exact onSuccess_const s.q p closer
+  | failure p => exact onFailure_const s.q p
+
+theorem runL_const (s : Led) (evs : List Ev) :
+    (runL s evs).q.cfg = s.q.cfg ∧ (runL s evs).q.variant = s.q.variant ∧ (runL s evs).q.target = s.q.target := by
+  induction evs generalizing s with
+  | nil => exact ⟨rfl, rfl, rfl⟩
+  | cons ev evs ih =>
+    have h1 := ih (stepL s ev)
+    have h2 := stepL_const s ev
+    exact ⟨h1.1.trans h2.1, h1.2.1.trans h2.2.1, h1.2.2.trans h2.2.2⟩
+
+/-! ### the ledger, read off the history -/
+
+/-- The state of the query after a history. -/
+def runQ (q : Q) : List Ev → Q
+  | [] => q
+  | ev :: evs => runQ (stepQ q ev).1 evs
+
+/-- The requests handed out by `next` along a history, oldest first. -/
+def requests (q : Q) : List Ev → List Nat
+  | [] => []
+  | ev :: evs => (emittedOf (stepQ q ev).2).toList ++ requests (stepQ q ev).1 evs
+
+theorem runL_q (s : Led) (evs : List Ev) : (runL s evs).q = runQ s.q evs := by
+  induction evs generalizing s with
+  | nil => rfl
+  | cons ev evs ih => exact ih (stepL s ev)
+
+theorem runL_emitted (s : Led) (evs : List Ev) :
+    (runL s evs).emitted = (requests s.q evs).reverse ++ s.emitted := by
+  induction evs generalizing s with
+  | nil => simp [runL, requests]
+  | cons ev evs ih =>
+    show (runL (stepL s ev) evs).emitted = _
+    rw [ih (stepL s ev)]
+    show (requests (stepQ s.q ev).1 evs).reverse ++ (stepL s ev).emitted = _
+    have : (stepL s ev).emitted = (emittedOf (stepQ s.q ev).2).toList.reverse ++ s.emitted := by
+      show (match emittedOf (stepQ s.q ev).2 with | some k => k :: s.emitted | none => s.emitted) = _
+      cases emittedOf (stepQ s.q ev).2 <;> simp
+    rw [this]
+    simp [requests, List.reverse_append]
+
+theorem runL_append (s : Led) (a b : List Ev) : runL s (a ++ b) = runL (runL s a) b := by
+  induction a generalizing s with
+  | nil => rfl
+  | cons ev a ih => exact ih (stepL s ev)
+
+/-- A peer in the `emitted` ledger was handed out by a `next` call of the history. -/
+theorem emitted_spec (s : Led) : ∀ (evs : List Ev) (k : Nat), k ∈ (runL s evs).emitted →
+    k ∈ s.emitted ∨ ∃ pre now post, evs = pre ++ .next now :: post ∧
+      (next (runL s pre).q now).2 = .waiting (some k)
+  | [], k, h => Or.inl h
+  | ev :: evs, k, h => by
+    rcases emitted_spec (stepL s ev) evs k h with h1 | ⟨pre, now, post, he, hn⟩
+    · -- handed out by this very step, or earlier
+      have hstep : (stepL s ev).emitted =
+          (match emittedOf (stepQ s.q ev).2 with | some k => k :: s.emitted | none => s.emitted) := rfl
+      rw [hstep] at h1
+      cases hem : emittedOf (stepQ s.q ev).2 with
+      | none => rw [hem] at h1; exact Or.inl h1
+      | some k' =>
+        rw [hem] at h1
+        rcases List.mem_cons.mp h1 with rfl | h2
+        · right
+          cases ev with
+          | next now =>
+            refine ⟨[], now, evs, rfl, ?_⟩
+            show (next s.q now).2 = _
+            have : emittedOf (some (next s.q now).2) = some k := hem
+            unfold emittedOf at this
+            cases hq : (next s.q now).2 with
+            | waiting o =>
+              rw [hq] at this
+              cases o with
+              | some k'' => simp at this; rw [this]
+              | none => simp at this
+            | waitingAtCapacity => rw [hq] at this; simp at this
+            | finished => rw [hq] at this; simp at this
+          | success p closer => simp [stepQ, emittedOf] at hem
+          | failure p => simp [stepQ, emittedOf] at hem
+        · exact Or.inl h2
+    · right
+      exact ⟨ev :: pre, now, post, by rw [he]; rfl, hn⟩
+
+/-- A peer in the `answered` ledger got an `on_success` call after it had been handed out. -/
+theorem answered_spec (s : Led) : ∀ (evs : List Ev) (k : Nat), k ∈ (runL s evs).answered →
+    k ∈ s.answered ∨ ∃ pre closer post, evs = pre ++ .success k closer :: post ∧
+      k ∈ (runL s pre).emitted
+  | [], k, h => Or.inl h
+  | ev :: evs, k, h => by
+    rcases answered_spec (stepL s ev) evs k h with h1 | ⟨pre, closer, post, he, hn⟩
+    · cases ev with
+      | next now => exact Or.inl h1
+      | failure p => exact Or.inl h1
+      | success p closer =>
+        have hstep : (stepL s (.success p closer)).answered =
+            (if p ∈ s.emitted then p :: s.answered else s.answered) := rfl
+        rw [hstep] at h1
+        by_cases hp : p ∈ s.emitted
+        · rw [if_pos hp] at h1
+          rcases List.mem_cons.mp h1 with rfl | h2
+          · exact Or.inr ⟨[], closer, evs, rfl, hp⟩
+          · exact Or.inl h2
+        · rw [if_neg hp] at h1; exact Or.inl h1
+    · right
+      exact ⟨ev :: pre, closer, post, by rw [he]; rfl, hn⟩
+
+/-- Every `(peer, flag)` in the `reported` ledger was in the initial list or in the `closer_peers`
+of an `on_success` call. -/
+theorem reported_spec (s : Led) : ∀ (evs : List Ev) (x : Nat × Bool), x ∈ (runL s evs).reported →
+    x ∈ s.reported ∨ ∃ pre p closer post, evs = pre ++ .success p closer :: post ∧ x ∈ closer
+  | [], x, h => Or.inl h
+  | ev :: evs, x, h => by
+    rcases reported_spec (stepL s ev) evs x h with h1 | ⟨pre, p, closer, post, he, hn⟩
+    · cases ev with
+      | next now => exact Or.inl h1
+      | failure p => exact Or.inl h1
+      | success p closer =>
+        have hstep : (stepL s (.success p closer)).reported = closer ++ s.reported := rfl
+        rw [hstep] at h1
+        rcases List.mem_append.mp h1 with h2 | h2
+        · exact Or.inr ⟨[], p, closer, evs, rfl, h2⟩
+        · exact Or.inl h2
+    · right
+      exact ⟨ev :: pre, p, closer, post, by rw [he]; rfl, hn⟩
+
+/-- `next` may hand out a request only in these situations. -/
+def MayIssue (q : Q) : Prop :=
+  (∃ n, q.progress = .iterating n ∧ q.numWaiting < q.cfg.parallelism) ∨
+  (q.progress = .stalled ∧ q.numWaiting < q.cfg.numResults)
+
+theorem mayIssue_of_not_atCapacity {q : Q} (h : atCapacity q = false) : MayIssue q := by
+  unfold atCapacity at h
+  unfold MayIssue
+  cases hp : q.progress with
+  | iterating n => rw [hp] at h; simp at h; exact Or.inl ⟨n, rfl, h⟩
+  | stalled => rw [hp] at h; simp at h; exact Or.inr ⟨rfl, h⟩
+  | finished => rw [hp] at h; simp at h
+
+/-- `next` hands out a request only if the query was not at capacity; the request goes to a peer
+that was `NotContacted`. -/
+theorem next_emit (q : Q) (now k : Nat) (h : (next q now).2 = .waiting (some k)) :
+    atCapacity q = false ∧ ∃ e ∈ q.peers, e.key = k ∧ e.state = .notContacted := by
+  unfold next at h
+  by_cases hf : q.progress.isFinished = true
+  · rw [if_pos hf] at h; simp at h
+  · rw [if_neg hf] at h
+    have hout := nextLoop_out q.variant q.cfg now (atCapacity q) q.peers (some 0) q.numWaiting
+    unfold finishNext at h
+    cases hL : (nextLoop q.variant q.cfg now (atCapacity q) q.peers (some 0) q.numWaiting).out with
+    | emit k' =>
+      rw [hL] at h
+      simp at h
+      obtain ⟨hc, e, he, hk, hs, _⟩ := hout.1 k' hL
+      exact ⟨hc, e, he, by rw [hk, h], hs⟩
+    | atCap => rw [hL] at h; simp at h
+    | fin => rw [hL] at h; simp at h
+    | done =>
+      rw [hL] at h
+      dsimp only at h
+      by_cases hz : (nextLoop q.variant q.cfg now (atCapacity q) q.peers (some 0) q.numWaiting).nw > 0
+      · rw [if_pos hz] at h; simp at h
+      · rw [if_neg hz] at h; simp at h
+
+/-- `next` reports `Finished` exactly when it leaves the query in progress `Finished`. -/
+theorem next_finished (q : Q) (now : Nat) :
+    (next q now).2 = .finished ↔ (next q now).1.progress = .finished := by
+  unfold next
+  by_cases hf : q.progress.isFinished = true
+  · rw [if_pos hf]; simp [isFinished_true hf]
+  · rw [if_neg hf]
+    have hne := isFinished_false (by simpa using hf)
+    unfold finishNext
+    cases hL : (nextLoop q.variant q.cfg now (atCapacity q) q.peers (some 0) q.numWaiting).out with
+    | emit k' => simp [hne]
+    | atCap => simp [hne]
+    | fin => simp
+    | done =>
+      dsimp only
+      by_cases hz : (nextLoop q.variant q.cfg now (atCapacity q) q.peers (some 0) q.numWaiting).nw > 0
+      · rw [if_pos hz]; simp [hne]
+      · rw [if_neg hz]; simp
+
+theorem nodup_subset_length_le : ∀ (l u : List Nat), l.Nodup → (∀ x ∈ l, x ∈ u) → l.length ≤ u.length
+  | [], _, _, _ => Nat.zero_le _
+  | a :: l, u, hnd, hsub => by
+    have hc := List.nodup_cons.mp hnd
+    have hau : a ∈ u := hsub a List.mem_cons_self
+    have ih := nodup_subset_length_le l (u.erase a) hc.2 (by
+      intro x hx
+      have hxa : x ≠ a := by intro h; rw [h] at hx; exact hc.1 hx
+      exact (List.mem_erase_of_ne hxa).mpr (hsub x (List.mem_cons_of_mem _ hx)))
+    rw [List.length_erase_of_mem hau] at ih
+    have : 0 < u.length := List.length_pos_of_mem hau
+    simp only [List.length_cons]; omega
+
 end Discv5.Query
